@@ -232,8 +232,18 @@ TTLSeal == /\ IsEvent("TLSeal")
                 /\ e.res = (IF GIsId(pk) THEN "Err" ELSE "Ok")
                 /\ IF e.res = "Ok"
                    THEN /\ e.len = TL!FrameLen(e.n)
-                        /\ Bind(e.out, VX("tlct", e.scheme, GId, PZero, TL!SealR(pk, e.scheme, TMsg(e.id), e.n, e.atom) @@ [r |-> e.atom]))
+                        /\ Bind(e.out, VX("tlct", e.scheme, GId, PZero, TL!SealR(pk, e.scheme, TMsg(e.id), e.n, e.atom) @@ [r |-> e.atom, tid |-> ""]))
                    ELSE UNCHANGED val
+
+TTLTamper == /\ IsEvent("TLTamper")
+             /\ LET e == Rec[l]
+                    c == val[e.of].x
+                    o == [op |-> e.op, arg |-> e.arg] IN
+                  /\ Known(e.of, "tlct")
+                  /\ e.op \in {"UNeg", "UAddGen", "UId", "VFlip", "W", "Relabel"}
+                  /\ (e.op = "W" => c.wtam = "") /\ (e.op = "VFlip" => c.vtam = "")
+                  \* (tid distinguishes two alterations of the same class - e.g. two different bits of one region)
+                  /\ Bind(e.out, VX("tlct", IF e.op = "Relabel" THEN e.arg ELSE val[e.of].scheme, GId, PZero, [TL!ApplyOp(c, o) EXCEPT !.tid = @ \o e.tid]))
 
 TTLDecrypt == /\ IsEvent("TLDecrypt")
               /\ LET e == Rec[l]
@@ -248,7 +258,16 @@ TSCSeal == /\ IsEvent("SCSeal")
            /\ LET e == Rec[l] IN
                 /\ Known(e.pk, "pk")
                 /\ e.len = SC!FrameLen(e.n)
-                /\ Bind(e.out, VX("scct", e.scheme, GId, PZero, SC!Seal(val[e.pk].den, e.scheme, e.n, e.atom)))
+                /\ Bind(e.out, VX("scct", e.scheme, GId, PZero, SC!Seal(val[e.pk].den, e.scheme, e.n, e.atom) @@ [tid |-> ""]))
+
+\* the adversary alters a recorded ciphertext (one move): the altered ciphertext is a new value
+TSCTamper == /\ IsEvent("SCTamper")
+             /\ LET e == Rec[l]
+                    c == val[e.of].x
+                    o == [op |-> e.op, arg |-> e.arg] IN
+                  /\ Known(e.of, "scct")
+                  /\ e.op \in {"UNeg", "UAddGen", "UId", "WNeg", "WAddGen", "WId", "UWId", "VFlip", "VExtend", "Relabel"}
+                  /\ Bind(e.out, VX("scct", IF e.op = "Relabel" THEN e.arg ELSE val[e.of].scheme, GId, PZero, [SC!ApplyOp(c, o, c) EXCEPT !.tid = @ \o e.tid]))
 
 TSCValid == /\ IsEvent("SCValid")
             /\ Known(Rec[l].ct, "scct")
@@ -352,7 +371,7 @@ TraceInit == l = 1 /\ val = NoVal /\ dummy = 0
 TraceNext == \/ TReset \/ TSk \/ TPk \/ TSign \/ TVerify \/ TSigOp \/ TPkOp \/ TPopProve \/ TPopVerify
              \/ TPopAsSig \/ TAggregate \/ TAggVerify \/ TAccumulate \/ TMultiKey \/ TMultiVerify
              \/ TSplit \/ TPkShare \/ TPartialSign \/ TPartialVerify \/ TCombineSig \/ TCombinePk \/ TCombineKey
-             \/ TTLSeal \/ TTLDecrypt \/ TSCSeal \/ TSCValid \/ TSCDecrypt \/ TSCDecShare \/ TSCShareVerify \/ TSCDecryptShares
+             \/ TTLSeal \/ TTLTamper \/ TTLDecrypt \/ TSCSeal \/ TSCTamper \/ TSCValid \/ TSCDecrypt \/ TSCDecShare \/ TSCShareVerify \/ TSCDecryptShares
              \/ TEGEncrypt \/ TEGAdd \/ TEGDecrypt \/ TEGPlain
              \/ TPokCommit \/ TPokChallenge \/ TPokFinalize \/ TPokVerify \/ TPokTsGen \/ TPokTsVerify
 TraceSpec == TraceInit /\ [][TraceNext /\ UNCHANGED dummy]_tvars
